@@ -254,6 +254,10 @@ var verifRenderColours = []Color{0, IndexColor(1), IndexColor(9), IndexColor(200
 
 // verifFreeStyle: mode 0 frees the attribute mask and underline style; mode 1 frees the three
 // colours over class representatives (default, 0-7, 8-15, 16-255, two RGB values).
+// verifCapRGB: whether the terminal of the running harness advertised RGB (set by the harness
+// once the capability is decided on the path).
+var verifCapRGB bool
+
 func verifFreeStyle(tag string, mode int) Style {
 	var st Style
 	which := zzverif.Param("which") // 0: both cells free, 1: only the first, 2: only the second
@@ -263,10 +267,16 @@ func verifFreeStyle(tag string, mode int) Style {
 	if mode == 2 {
 		// one colour channel at a time
 		var c Color
-		if k := zzverif.Choose(tag+".colour", len(verifRenderColours)+1); k < len(verifRenderColours) {
+		switch k := zzverif.Choose(tag+".colour", len(verifRenderColours)+1+zzverif.Param("rgbfree")); {
+		case k < len(verifRenderColours):
 			c = verifRenderColours[k]
-		} else {
+		case k == len(verifRenderColours):
 			c = IndexColor(zzverif.Uint8(tag + ".index")) // any palette index
+		default:
+			// any direct colour, on terminals with RGB support (without it the expected
+			// colour is the nearest palette entry, which is C07's asIndex harness)
+			zzverif.Assume(verifCapRGB)
+			c = RGBColor(zzverif.Uint8(tag+".r"), zzverif.Uint8(tag+".g"), zzverif.Uint8(tag+".b"))
 		}
 		switch zzverif.Param("chan") {
 		case 0:
@@ -312,6 +322,10 @@ func VerifC01Styles() {
 	verifFlush(vx, con, t, true)
 	verifCheckFrame(t, vx, "frame1")
 	win.Clear()
+	verifCapRGB = false
+	if vx.caps.rgb {
+		verifCapRGB = true
+	}
 	win.SetCell(0, 0, Cell{Character: Character{Grapheme: "a", Width: 1}, Style: verifFreeStyle("s1", mode)})
 	win.SetCell(1, 0, Cell{Character: Character{Grapheme: "b", Width: 1}, Style: verifFreeStyle("s2", mode)})
 	verifFlush(vx, con, t, false)
